@@ -13,6 +13,7 @@ mod c11;
 mod c12;
 mod c14;
 mod c07;
+mod c15;
 mod c16;
 mod c18;
 mod sinkwalk;
@@ -35,6 +36,7 @@ pub fn run(opts: &Opts) -> i32 {
         "C10" => c10::run(opts),
         "C14" => c14::run(opts),
         "C07" => c07::run(opts),
+        "C15" => c15::run(opts),
         "C16" => c16::run(opts),
         "C18" => c18::run(opts),
         "smoke" => smoke::run(opts),
